@@ -1118,7 +1118,7 @@ def emit_law_thms(L):
     fa = "forall %s %s," % (ps, " ".join(IV))
     out = [HDR % ("EasyFEA/Models/HyperElastic/_laws.py class " + n),
            "From Coq Require Import Reals Lra List.", "From Coquelicot Require Import Coquelicot.",
-           "From EFP Require Import C18_tac Gen_HyperLaws.", "Open Scope R_scope.", ""]
+           "From EFModel Require Import C18_tac.", "From EFP Require Import Gen_HyperLaws.", "Open Scope R_scope.", ""]
     names = []
     for k in INV:
         x = {"I%d" % k: "x"}
@@ -1206,7 +1206,7 @@ def emit_inv(M):
     S = M["state"]
     out = [HDR % S["file"],
            "From Coq Require Import QArith List Ring_polynom.", "From EFLib Require Import PolyQ.",
-           "From EFP Require Import C18_InvDefs.", "Import ListNotations.", ""]
+           "From EFModel Require Import C18_InvDefs.", "Import ListNotations.", ""]
     names = []
     for key in sorted(S["inv"]):
         rec = S["inv"][key]
@@ -1257,7 +1257,7 @@ def emit_ref(M):
     comp = [HDR % "EasyFEA/Models/HyperElastic/_laws.py + _state.py",
             "From Coq Require Import Reals List.", "From EFP Require Import Gen_HyperLaws.", "Open Scope R_scope.", ""]
     out = [HDR % "EasyFEA/Models/HyperElastic/_laws.py + _state.py",
-           "From Coq Require Import Reals Lra Psatz List.", "From EFP Require Import C18_tac C18_kinematics Gen_HyperLaws Gen_HyperComp.",
+           "From Coq Require Import Reals Lra Psatz List.", "From EFModel Require Import C18_tac C18_kinematics.", "From EFP Require Import Gen_HyperLaws Gen_HyperComp.",
            "Open Scope R_scope.", "",
            "Lemma rp_one : forall q, Rpower 1 q = 1.",
            "Proof. intro q. unfold Rpower. rewrite ln_1, Rmult_0_r. apply exp_0. Qed.",
@@ -1673,7 +1673,7 @@ def emit_grad(M, L, tangent_block=True):
     dirs = " ".join(CV[6:])
     out = [HDR % ("EasyFEA/Models/HyperElastic/_laws.py class %s + _state.py" % n),
            "From Coq Require Import Reals Lra Psatz List.", "From Coquelicot Require Import Coquelicot.",
-           "From EFP Require Import C18_tac C18_gradtac Gen_HyperLaws Gen_HyperComp.", "Open Scope R_scope.", ""]
+           "From EFModel Require Import C18_tac C18_gradtac.", "From EFP Require Import Gen_HyperLaws Gen_HyperComp.", "Open Scope R_scope.", ""]
     names = []
     for m in range(6):
         others = [c for i, c in enumerate(COMP) if i != m]
@@ -1794,7 +1794,7 @@ def read_build_de(repo):
 def emit_de(repo):
     D = read_build_de(repo)
     out = [HDR % "EasyFEA/Models/HyperElastic/_state.py __Build_De",
-           "From Coq Require Import Reals List.", "From EFP Require Import C18_kinematics.", "Import ListNotations.", "Open Scope R_scope.", ""]
+           "From Coq Require Import Reals List.", "From EFModel Require Import C18_kinematics.", "Import ListNotations.", "Open Scope R_scope.", ""]
     for dim, rows in sorted(D.items()):
         txt = []
         for scaled, vals in rows:
@@ -1806,4 +1806,107 @@ def emit_de(repo):
                     ent.append("%sm%d%d G" % ("cM * " if scaled else "", v[0] + 1, v[1] + 1))
             txt.append("[" + "; ".join(ent) + "]")
         out.append("Definition De%d (cM : R) (G : M3) : list (list R) :=\n  [%s]." % (dim, ";\n   ".join(txt)))
+    return "\n".join(out) + "\n"
+
+
+# ----------------------------------------------------------------------------------------
+# Newton coefficients vs evaluation point of every time scheme (trees from C05's translator/timeschemes.py):
+# coefK, coefC, coefM of _Solver_Get_K_C_M_coefs_for_time_scheme must be d(u_t, v_t, a_t)/d(u_{n+1}) of
+# _Solver_Evaluate_u_v_a_for_time_scheme, otherwise coefK K + coefC C + coefM M is not the derivative of the residual.
+# ----------------------------------------------------------------------------------------
+def _ts_scalar(t):
+    """C05 typed tree -> rtree, vectors read as scalars (the evaluation trees are built from +, -, scalar multiples only)."""
+    op = t[0]
+    if op == 'c':
+        return ('c', t[2])
+    if op == 'v':
+        return ('v', {"x": "x"}.get(t[2], t[2]))
+    if op == 'neg':
+        return ('neg', _ts_scalar(t[2]))
+    if op in ('+', '-', '*', '/'):
+        return (op, _ts_scalar(t[2]), _ts_scalar(t[3]))
+    if op == 'pow':
+        return ('pow', _ts_scalar(t[2]), Fraction(t[3]))
+    if op == 'smul':
+        return ('*', _ts_scalar(t[2]), _ts_scalar(t[3]))
+    if op == 'sdiv':
+        return ('/', _ts_scalar(t[2]), _ts_scalar(t[3]))
+    raise TranslateError("time scheme: operator %s in an evaluation tree (not affine in the unknown)" % op)
+
+
+def _denoms(t, acc):
+    if t[0] == '/':
+        acc.append(t[2])
+    if t[0] not in ('c', 'v'):
+        for s in t[1:]:
+            if isinstance(s, tuple):
+                _denoms(s, acc)
+    return acc
+
+
+def read_newton_coefs(repo):
+    """{algo: {"ev": [u_t, v_t, a_t] rtrees or None, "coefs": [K, C, M] rtrees}} for the schemes a nonlinear simulation accepts."""
+    from translator import timeschemes as ts
+    try:
+        T = ts.read_schemes(repo)
+        members, lists, _ = ts.read_algotype(repo)
+    except ts.TranslateError as ex:
+        raise TranslateError("time schemes: %s" % ex)
+    hyp = lists["Get_Hyperbolic_Types"]
+    res = {}
+    for algo in hyp:
+        r = T["schemes"][algo]
+        if r["ev"][2] is None and algo == "euler_explicit":
+            continue            # rejected for nonlinear simulations by Solver_Set_Hyperbolic_Algorithm
+        res[algo] = {"ev": [None if t is None else _ts_scalar(t) for t in r["ev"]], "coefs": [_ts_scalar(c) for c in r["coefs"]]}
+    if not res:
+        raise TranslateError("time schemes: no hyperbolic scheme found")
+    return res, hyp
+
+
+def newton_coef_defects(NC):
+    """exact search: schemes whose coefficient differs from the slope of the evaluation tree in u_{n+1}."""
+    bad = []
+    num = FracNum()
+    base = {"dt": Fraction(1, 20), "beta": Fraction(3, 10), "gamma": Fraction(3, 5), "alpha": Fraction(1, 5),
+            "u_n": Fraction(1, 3), "v_n": Fraction(-2, 7), "a_n": Fraction(5, 11)}
+    for algo, r in NC.items():
+        for nm, t, c in zip(("u_t/coefK", "v_t/coefC", "a_t/coefM"), r["ev"], r["coefs"]):
+            if t is None:
+                continue
+            f = lambda x: ev(t, dict(base, x=x), num)
+            slope = f(Fraction(1)) - f(Fraction(0))
+            lin = f(Fraction(3)) - f(Fraction(0)) == 3 * slope
+            cv = ev(c, base, num)
+            if slope != cv or not lin:
+                bad.append((algo, nm, slope, cv))
+    return bad
+
+
+def emit_newton_coefs(NC):
+    out = [HDR % "EasyFEA/Simulations/_simu.py (_Solver_Evaluate_u_v_a_for_time_scheme, _Solver_Get_K_C_M_coefs_for_time_scheme) via translator/timeschemes.py",
+           "From Coq Require Import Reals Lra.", "From Coquelicot Require Import Coquelicot.", "From EFModel Require Import C18_tac.", "Open Scope R_scope.", ""]
+    sig = "(dt beta gamma alpha u_n v_n a_n x : R)"
+    args = "dt beta gamma alpha u_n v_n a_n"
+    for algo, r in NC.items():
+        den = []
+        for t in [x for x in r["ev"] if x is not None] + r["coefs"]:
+            _denoms(t, den)
+        hv = sorted(set(v for d in den for v in free_vars(d)))
+        hyps = "".join("%s <> 0 -> " % v for v in hv)
+        names = []
+        for nm, t, c in zip(("u_t", "v_t", "a_t"), r["ev"], r["coefs"]):
+            cn = {"u_t": "coefK", "v_t": "coefC", "a_t": "coefM"}[nm]
+            out.append("Definition ts_%s_%s %s : R := %s." % (algo, cn, sig, coqR(c)))
+            if t is None:
+                continue
+            out.append("Definition ts_%s_%s %s : R := %s." % (algo, nm, sig, coqR(t)))
+            out.append("Lemma ts_%s_%s_slope : forall %s x0, %sis_derive (fun x => ts_%s_%s %s x) x0 (ts_%s_%s %s x0)."
+                       % (algo, nm, args, hyps, algo, nm, args, algo, cn, args))
+            out.append("Proof. intros %s x0 %s. unfold ts_%s_%s, ts_%s_%s. auto_derive; [ repeat split; auto; try (apply Rmult_integral_contrapositive_currified; auto) | field; repeat split; auto ]. Qed."
+                       % (args, " ".join("H%s" % v for v in hv), algo, nm, algo, cn))
+            names.append("ts_%s_%s_slope" % (algo, nm))
+        out.append("")
+    out.append("(* hence d/du_{n+1} [ R_int(u_t) + C(u_t) v_t + M a_t ] = coefK (K + Kgeo) + coefC C + coefM M : the matrix the Newton loop assembles *)")
+    out.append("Print Assumptions ts_%s." % names[-1][3:] if names else "")
     return "\n".join(out) + "\n"
